@@ -8,7 +8,7 @@ import (
 
 func containsSym(v value) bool {
 	switch x := v.(type) {
-	case symv, *sstr:
+	case symv, *sstr, symstr:
 		return true
 	case structure:
 		for _, e := range x {
@@ -76,7 +76,13 @@ func symEq(t types.Type, x, y value) value {
 	switch ut := t.Underlying().(type) {
 	case *types.Basic:
 		if ut.Info()&types.IsString != 0 {
+			if isSymStr(x) || isSymStr(y) {
+				return strBinop(token.EQL, x, y)
+			}
 			return eqStr(x, y)
+		}
+		if r, ok := intCompare(token.EQL, x, y); ok {
+			return r
 		}
 		return symBinop(token.EQL, t, x, y)
 	case *types.Struct:
